@@ -542,10 +542,12 @@ class ExtendedKalmanFilter:
         computed_jacobian = list(
             impl_sensor_jacobian.execute(*state, *self.calibration_vector)
         )
+        # The flattened symbolic jacobian has one column per state and calibration symbol
+        row_stride = self.state_size + self.calibration_size
         result = np.zeros((sensor_size, self.state_size))
         for row in range(sensor_size):
             for col in range(self.state_size):
-                result[row, col] = computed_jacobian[row * sensor_size + col]
+                result[row, col] = computed_jacobian[row * row_stride + col]
         return result
 
     def process_model(self, dt, state, covariance, control=None):
